@@ -99,6 +99,21 @@ def theorem_names(path):
     return names
 
 
+def lean_recheck(pid):
+    """thorough tier: the compiled theorem modules of the property are re-checked by `leanchecker`, the toolchain's independent
+    re-checker of .olean files (replays every declaration through the kernel).  Returns a list of errors."""
+    frag_dir = os.path.join(LEAN_DIR, "Bt", "Props")
+    frags = sorted(f[:-5] for f in os.listdir(frag_dir) if f.startswith(pid + "_") and f.endswith(".lean"))
+    modules = ["Bt.Props." + pid] + ["Bt.Props." + f for f in frags]
+    try:
+        r = subprocess.run(["lake", "env", "leanchecker"] + modules, cwd=LEAN_DIR, capture_output=True, text=True, timeout=1800)
+    except Exception as e:  # noqa
+        return ["leanchecker did not finish: %r" % e]
+    if r.returncode != 0:
+        return ["leanchecker rejected %s: %s" % (" ".join(modules), (r.stdout + r.stderr)[-800:])]
+    return []
+
+
 def lean_gate(pid):
     """returns (obligations:[{name, ok, axioms}], errors:[str])"""
     errors = []
@@ -227,6 +242,10 @@ def main(argv=None):
         return 2
 
     obligations, lean_errors = lean_gate(pid)
+    if tier == "thorough" and not lean_errors and not os.environ.get("VERIF_DEV_SKIP_LEAN"):
+        rc_errs = lean_recheck(pid)
+        lean_errors = lean_errors + rc_errs
+        ctx.notes.append("leanchecker re-check of the property's theorem modules: " + ("ok" if not rc_errs else "FAILED"))
     if lean_errors and not os.environ.get("VERIF_DEV_SKIP_LEAN"):
         for e in lean_errors:
             print("LEAN-GATE:", e)
